@@ -31,7 +31,12 @@ def _evaluate_expression(obj, selector):
 
 def _validate_selector(obj, selector):
     """Evaluate each selector against an object."""
-    results = list(_evaluate_expression(obj, selector))
+    try:
+        results = list(_evaluate_expression(obj, selector))
+    except RecursionError:
+        raise ValueError(
+            "content is nested too deeply to evaluate selector '%s'" % selector,
+        )
 
     if len(results) >= 1:
         return True
